@@ -92,6 +92,21 @@ func NewNodeConf(id string, join []string) *config.Config {
 
 // StartCluster starts n nodes, each joining all earlier ones (unless noJoin).
 func StartCluster(n int, noJoin bool, mod func(i int, c *config.Config)) (*TCluster, error) {
+	var cl *TCluster
+	var err error
+	// the gossip UDP socket is bound to the port number the TCP listener got,
+	// which another process may hold: retry
+	for attempt := 0; attempt < 8; attempt++ {
+		cl, err = startCluster(n, noJoin, mod)
+		if err == nil || !strings.Contains(err.Error(), "address already in use") {
+			return cl, err
+		}
+		time.Sleep(20 * time.Millisecond)
+	}
+	return cl, err
+}
+
+func startCluster(n int, noJoin bool, mod func(i int, c *config.Config)) (*TCluster, error) {
 	cl := &TCluster{}
 	for i := 0; i < n; i++ {
 		var join []string
